@@ -102,7 +102,8 @@ def cmd_check(pid, tier):
         rule=getattr(mod, "RULE", "cases are distinct by the hash of their canonical JSON description; trivial cases are flagged by the generator"),
         samples=ctx.samples[:8] or [dict(note="no cases")],
         correspondence_cases=n_corr, witness_cases=ctx.evaluations - n_corr,
-        disagreements=len(ctx.disagreements), failing_inputs=len(ctx.failures),
+        disagreements=len(ctx.disagreements), failing_inputs=len(violations),
+        known_findings_reproduced=[dict(test=f['test'], params=f['params']) for f in ctx.failures if f not in violations],
         tie_broken=[b["what"] for b in ctx.tie_broken], distribution=ctx.dist, notes=ctx.notes,
     )
     core.write_evidence(pid, tier, seed, "proof", cov, time.time() - t0, len(lines),
@@ -111,8 +112,10 @@ def cmd_check(pid, tier):
         log(f"[{pid}] BROKEN {b['what']}:\n{b['detail'][-1200:]}")
     for d in ctx.disagreements[:5]:
         log(f"[{pid}] DISAGREE {d}")
-    for f in ctx.failures[:5]:
+    for f in violations[:5]:
         log(f"[{pid}] FAIL {f}")
+    for f in [f for f in ctx.failures if f not in violations][:5]:
+        log(f"[{pid}] known finding reproduced: {f['test']} {f['params']}: {f['detail']}")
     for l in lines:
         log(l)
     log(f"[{pid}] {'FAIL' if lines else 'ok'} in {time.time()-t0:.0f}s")
